@@ -152,7 +152,8 @@ static void sleepq_event(uint32_t id, uint64_t a, uint64_t b) {
     c_walk_events.add();
     int kind = a & 0xff, site = (a >> 8) & 0xff;
     const char* k = kind == 1 ? "sleepq/back-index-wrong" : kind == 2 ? "sleepq/heap-order-broken"
-                  : kind == 3 ? "sleepq/expired-sleeper-left-behind" : "sleepq/expired-sleeper-starved-for-32-passes";
+                  : kind == 3 ? "sleepq/expired-sleeper-left-behind" : kind == 5 ? "sleepq/thread-of-another-vcpu-registered"
+                  : "sleepq/expired-sleeper-starved-for-32-passes";
     vh::violation(k, "sleep-heap invariant violated (walker inside the scheduler)",
                   vh::JObj().kv("kind", kind).kv("site", site == 1 ? "push" : site == 2 ? "pop_front" : site == 3 ? "pop(middle)" : "resume-pass").kv("index", b).str());
 }
